@@ -24,6 +24,7 @@ func init() {
 
 var fullAlphabet = []string{"ban", "unban", "use", "restart", "crash", "useB2", "sync"}
 var toggleAlphabet = []string{"ban", "unban", "use"}
+var restartAlphabet = []string{"ban", "unban", "use", "restart", "crash"}
 
 // capture records what the broker would broadcast.
 type capture struct{ payloads []mesh.GossipData }
@@ -297,9 +298,11 @@ func search(c *core.Ctx, name string, ops []string, depth int) {
 func run(c *core.Ctx) {
 	if c.Quick() {
 		search(c, "toggle", toggleAlphabet, 6)
+		search(c, "restart", restartAlphabet, 4)
 		search(c, "full", fullAlphabet, 3)
 	} else {
 		search(c, "toggle", toggleAlphabet, 8)
+		search(c, "restart", restartAlphabet, 6)
 		search(c, "full", fullAlphabet, 5)
 	}
 	c.Assume("the 60 s read-cache TTL and the 6 h tombstone TTL never elapse inside a run")
@@ -316,6 +319,9 @@ func replay(c *core.Ctx, raw json.RawMessage) {
 	ops := fullAlphabet
 	if cs.Alphabet == "toggle" {
 		ops = toggleAlphabet
+	}
+	if cs.Alphabet == "restart" {
+		ops = restartAlphabet
 	}
 	w := newWenv()
 	defer w.close()
